@@ -212,6 +212,13 @@ def r3(ctx):
     ctx.sub(c01.r9)     # cost table = -loglik; stored cost = kernel's second result
     from . import c05
     ctx.sub(c05.r2, only=("table:ranges", "table:row", "table:same-k", "table:return", "wrapper:return"))   # ... with an entry for every point and cluster
+    # "... plus the switching cost of every consecutive labelled pair, within one series": the price the kernel charges is the
+    # caller's beta (single-series front end), and in a joint run the beta masked at the series boundaries (C07.R3; on the delivered
+    # tree the unmasked value reaches the loop - the known finding F4b shows here as well)
+    from .plumb import plumb
+    from . import c07
+    plumb(ctx, ["label_switching_cost"], skip={("ticc_joint_labels", "label_switching_cost")})
+    ctx.sub(c07.r3)
     ctx.sub(c01.r6, only=("start:cost",))   # reported cost = cost of the returned path's start state (which state is C01's business)
     ctx.sub(c01.r1)     # tables are written only by the recurrence
     ctx.sub(c01.r2)
